@@ -681,7 +681,9 @@ class Executor:
                 # opaque call
                 st.ncalls += 1
                 cid = st.ncalls
+                derefs = [self.read_place(body, fid, st, a[1]) if a[0] == 'ref' else None for a in args]
                 ev = {'kind': 'call', 'id': cid, 'decl': decl, 'res': res, 'selfty': t['selfty'], 'args': args,
+                      'derefs': derefs,
                       'argtys': [a.get('place', {}).get('ty', a.get('ty', '')) for a in t['args']],
                       'block': block, 'span': t['span'], 'body': body.nname, 'depth': depth, 'fid': fid,
                       'diverges': t['target'] < 0, 'gargs': t['gargs']}
